@@ -258,6 +258,16 @@ func c15kernTable(k *mon.Case, n int, huge bool) (out []byte, ref map[glyph.Pair
 			p := glyph.Pair{Left: glyph.ID(r.IntN(n)), Right: glyph.ID(r.IntN(n))}
 			if s > 0 && r.IntN(2) == 0 && len(refKeys) > 0 && !(huge && s == nsub-1) {
 				p = refKeys[r.IntN(len(refKeys))] // hit an existing pair
+				if r.IntN(4) == 0 {
+					// exactly zero: an override resets the pair, a minimum
+					// raises a negative value to 0, an accumulating subtable
+					// leaves it alone
+					pairs[p] = 0
+					if ref[p] != 0 && kind != "ignored" {
+						k.Class("kern:zero-for-a-pair-with-a-value:" + kind)
+					}
+					continue
+				}
 				if r.IntN(3) == 0 {
 					// push the accumulated value towards (and beyond) the end of the FWORD range
 					if ref[p] >= 0 {
@@ -969,7 +979,7 @@ func runC15(c *mon.Ctx) {
 	req := []string{"select:exact-language", "select:non-matching-language,>=2-systems", "layout:gsub-effect", "layout:gpos-effect", "layout:no-rule-applies",
 		"kern:glyf", "kern:cff", "kern-subtable:accumulate", "kern-subtable:minimum", "kern-subtable:override", "kern-subtable:ignored", "kern-subtable:>10920-pairs",
 		"kern-first-subtable:minimum", "kern-first-subtable:override", "kern-first-subtable:minimum-raises-implicit-0", "kern-first-subtable:minimum-below-implicit-0",
-		"kern-value:int16-extreme", "kern-value:large", "kern:accumulation-leaves-int16",
+		"kern-value:int16-extreme", "kern-value:large", "kern:accumulation-leaves-int16", "kern:zero-for-a-pair-with-a-value:override", "kern:zero-for-a-pair-with-a-value:minimum",
 		"select:lookup-index-out-of-range", "select:optional-feature-index-out-of-range", "select:required-feature-index-out-of-range", "layout:gdef-marks", "layout:history-compared", "layout:second-layouter-flipped-switches", "fixed-pitch=true", "fixed-pitch=false",
 		"features:all-off", "features:explicit", "features:nil-defaults", "layout:cmap=mac", "layout:cmap=12", "layout:ligature-ignores-marks", "select:read-back,>=2-systems"}
 	for s := 0; s < 32; s++ {
